@@ -67,6 +67,11 @@ func (s *syncStore[H]) Append(ctx context.Context, headers ...H) error {
 	//  To be reworked by bsync.
 	if headers[0].Height() >= head.Height() {
 		for _, h := range headers {
+			if h.Height() == head.Height() {
+				// the head itself may get here twice: as a new network head stored directly and
+				// as a pending header applied by the syncing routine. It is applied already.
+				continue
+			}
 			if h.Height() != head.Height()+1 {
 				return &errNonAdjacent{
 					Head:      head.Height(),
